@@ -28,10 +28,10 @@ def _ensure_lock():
         raise RuntimeError("harness-nightly/Cargo.lock is missing (it is committed: ahash bumped to 0.8.12 for the nightly)")
 
 
-def _build(kind, env):
-    """kind: tsan | asan. Returns (binary path, error text)."""
+def _build(kind, env, features=None):
+    """kind: tsan | asan. Returns (binary path, error text). features: cargo features of the harness (the typed flavours)."""
     _ensure_lock()
-    target_dir = os.path.join(ROOT, "target-" + kind)
+    target_dir = os.path.join(ROOT, "target-" + kind + ("-" + features if features else ""))
     e = dict(env)
     e.pop("CARGO_TARGET_DIR", None)
     cmd = ["cargo", "+nightly", "build", "--release", "--offline", "--quiet", "--target", TRIPLE, "--target-dir", target_dir]
@@ -40,6 +40,8 @@ def _build(kind, env):
         cmd += ["-Zbuild-std"]
     else:
         e["RUSTFLAGS"] = "-Zsanitizer=address -Cforce-frame-pointers=yes"
+    if features:
+        cmd += ["--features", features]
     p = subprocess.run(cmd, cwd=NIGHTLY, env=e, stdout=subprocess.PIPE, stderr=subprocess.STDOUT, text=True)
     if p.returncode != 0:
         return None, p.stdout[-3000:]
@@ -70,8 +72,8 @@ def _parse_tsan(text):
     return reports
 
 
-def _run_sanitized(kind, binary, prop, seed, shards, per_shard, threads, ops, env):
-    log_dir = os.path.join(ROOT, "target-" + kind, "logs")
+def _run_sanitized(kind, binary, prop, seed, shards, per_shard, threads, ops, env, features=None):
+    log_dir = os.path.join(ROOT, "target-" + kind + ("-" + features if features else ""), "logs")
     os.makedirs(log_dir, exist_ok=True)
     for f in os.listdir(log_dir):
         os.unlink(os.path.join(log_dir, f))
@@ -97,16 +99,25 @@ def _run_sanitized(kind, binary, prop, seed, shards, per_shard, threads, ops, en
     return runs, log_dir
 
 
-def _sanitizer_extra(kind, prop, tier, seed, target, env):
-    res = _result(kind)
+def _sanitizer_extra(kind, prop, tier, seed, target, env, features=None):
+    res = _result(kind + ("-" + features if features else ""))
     t0 = time.time()
-    binary, err = _build(kind, env)
+    binary, err = _build(kind, env, features)
     if binary is None:
         res["errors"].append("%s build failed: %s" % (kind, err[-800:]))
         return res
-    res["counts"][kind + "_build_s"] = int(time.time() - t0)
+    res["counts"][kind + ("_" + features if features else "") + "_build_s"] = int(time.time() - t0)
     shards, per_shard, threads, ops = (12, 30, 8, 3000) if kind == "tsan" else (12, 40, 8, 4000)
-    runs, log_dir = _run_sanitized(kind, binary, prop, seed, shards, per_shard, threads, ops, env)
+    if features:
+        # heap-owning keys and values (harness/src/typed.rs): a use-after-free or double free of an entry inside DashMap / crossbeam, which
+        # is a silent stale read with u64 values, is an invalid access to a freed Box here
+        shards, per_shard = 8, per_shard // 2
+        seed = seed + 1000
+    runs, log_dir = _run_sanitized(kind, binary, prop, seed, shards, per_shard, threads, ops, env, features)
+    if features:
+        kind_tag = kind + "-" + features
+    else:
+        kind_tag = kind
     seen = {}
     for i, status, out, stderr in runs:
         if status == "timeout":
@@ -115,10 +126,10 @@ def _sanitizer_extra(kind, prop, tier, seed, target, env):
         if os.path.exists(out):
             shard = json.load(open(out))
             res["evaluations"] += shard["evaluations"]
-            res["sigs"] += [kind + s for s in shard["sigs"]]
-            res["sigs_nontrivial"] += [kind + s for s in shard["sigs_nontrivial"]]
+            res["sigs"] += [kind_tag + s for s in shard["sigs"]]
+            res["sigs_nontrivial"] += [kind_tag + s for s in shard["sigs_nontrivial"]]
             for k, v in shard["counts"].items():
-                res["counts"][kind + ":" + k] = res["counts"].get(kind + ":" + k, 0) + v
+                res["counts"][kind_tag + ":" + k] = res["counts"].get(kind_tag + ":" + k, 0) + v
             for f in shard["findings"]:
                 f["signature"] = f["signature"] + "/" + kind
                 res["findings"].append(f)
@@ -164,18 +175,27 @@ def asan_extra(prop, tier, seed, target, env):
     return _sanitizer_extra("asan", prop, tier, seed, target, env)
 
 
+def asan_typed_extra(prop, tier, seed, target, env):
+    return _sanitizer_extra("asan", prop, tier, seed, target, env, features="typed")
+
+
+def tsan_typed_extra(prop, tier, seed, target, env):
+    return _sanitizer_extra("tsan", prop, tier, seed, target, env, features="typed")
+
+
 MIRI_ERR = re.compile(r"error: (Undefined Behavior|unsupported operation|deadlock|the evaluated program deadlocked|Data race|memory leaked|abnormal termination)[^\n]*")
 
 
-def _miri(prop, seed, jobs, engine, env, timeout):
+def _miri(prop, seed, jobs, engine, env, timeout, features=None):
     """jobs: list of (miriflags, argv). Runs them in parallel processes; parses JSON lines and Miri errors."""
     _ensure_lock()
     res = _result(engine)
-    target_dir = os.path.join(ROOT, "target-miri")
+    target_dir = os.path.join(ROOT, "target-miri" + ("-" + features if features else ""))
+    feat = ["--features", features] if features else []
     e0 = dict(env)
     e0.pop("CARGO_TARGET_DIR", None)
     # build once (and warm the sysroot) so that the parallel runs do not serialise on cargo's lock for long
-    warm = subprocess.run(["cargo", "+nightly", "miri", "run", "--offline", "--target-dir", target_dir, "--", "comp", "--scenario", "c14-bytes", "--focus", "C14"],
+    warm = subprocess.run(["cargo", "+nightly", "miri", "run", "--offline"] + feat + ["--target-dir", target_dir, "--", "comp", "--scenario", "c14-bytes", "--focus", "C14"],
                           cwd=NIGHTLY, env=dict(e0, MIRIFLAGS="-Zmiri-ignore-leaks"), stdout=subprocess.PIPE, stderr=subprocess.PIPE, text=True)
     if warm.returncode != 0 and "error[" in warm.stderr:
         res["errors"].append("miri build failed: " + warm.stderr[-800:])
@@ -185,7 +205,7 @@ def _miri(prop, seed, jobs, engine, env, timeout):
         flags, argv = job
         e = dict(e0, MIRIFLAGS=flags)
         try:
-            p = subprocess.run(["cargo", "+nightly", "miri", "run", "--offline", "--target-dir", target_dir, "--"] + argv, cwd=NIGHTLY, env=e,
+            p = subprocess.run(["cargo", "+nightly", "miri", "run", "--offline"] + feat + ["--target-dir", target_dir, "--"] + argv, cwd=NIGHTLY, env=e,
                                stdout=subprocess.PIPE, stderr=subprocess.PIPE, text=True, timeout=timeout)
             return flags, argv, p.returncode, p.stdout, p.stderr
         except subprocess.TimeoutExpired as ex:
@@ -260,3 +280,14 @@ def miri_cache_extra(prop, tier, seed, target, env):
         jobs.append((flags, ["conc", "--scenario", "bare", "--miri", "1", "--focus", prop, "--seed", str(seed), "--from", str(i), "--count", "2",
                              "--threads", "3", "--ops", "5", "--keys", "2"]))
     return _miri(prop, seed, jobs, "miri-cache", env, 3000)
+
+
+def miri_cache_typed_extra(prop, tier, seed, target, env):
+    """The same tiny cache workload over boxed keys and values: Miri then checks every access DashMap's and crossbeam's unsafe code makes to an
+    entry that owns heap memory (use after free, double drop, leaks of the value are undefined behaviour or reported, not silent)."""
+    jobs = []
+    for i in range(8):
+        flags = "-Zmiri-many-seeds=%d..%d -Zmiri-preemption-rate=0.1 -Zmiri-ignore-leaks" % (100 + 4 * i, 100 + 4 * i + 4)
+        jobs.append((flags, ["conc", "--scenario", "bare", "--miri", "1", "--focus", prop, "--seed", str(seed + 1000), "--from", str(i), "--count", "2",
+                             "--threads", "3", "--ops", "5", "--keys", "2"]))
+    return _miri(prop, seed, jobs, "miri-cache-typed", env, 3000, features="typed")
